@@ -12,7 +12,7 @@ from ..runner import Obs, exc_bucket, hyp_run
 ID = "C01"
 LEVEL = "exploration"
 RULE = (
-    "case = (api, payload spec, key source, trace flag); lengths 0..70000 enumerated per tier plus Hypothesis-"
+    "case = (api, payload spec, key source, trace flag), or a history of 5..130 send calls on one connection (pings answered by the server and read now and then); lengths 0..70000 enumerated per tier plus Hypothesis-"
     "generated payloads/keys. Non-trivial: payload length >= 126, or a control/close opcode, or len%4 != 0 under a "
     "key with four distinct non-zero bytes, or the default (OS randomness) key source. Distinct = "
     "(api, opcode, fin, exact length, key kind, payload type, trace)."
@@ -77,7 +77,74 @@ def payload_of(case):
     return (block * (n // len(block) + 1))[:n]
 
 
+def run_history(case):
+    """Many sends on ONE connection (the statement says *every* frame): steps = [api, payload, opcode]; the server answers
+    each ping with a pong, which the application reads through `reader` from time to time."""
+    import websocket
+    from websocket import ABNF
+
+    obs = Obs()
+    steps = case["steps"]
+    script = []
+    for st_ in steps:
+        if st_[0] == "ping":
+            script.append(rm.encode_frame(1, rm.PONG, st_[1] if isinstance(st_[1], bytes) else st_[1].encode("utf-8")))
+    ws, fs = make_ws(script, at_end="timeout")
+    key = b"\x0a\x0b\x0c\x0d"
+    ws.set_mask_key(lambda n: key)
+    reader = case.get("reader", "recv")
+    pos = 0
+    for i, (api, payload, opcode) in enumerate(steps):
+        raw = payload.encode("utf-8") if isinstance(payload, str) else bytes(payload)
+        arg = bytearray(payload) if case.get("bytearray") and isinstance(payload, bytes) else payload
+        exp_op = {"ping": rm.PING, "pong": rm.PONG, "send_binary": rm.BINARY, "send_text": rm.TEXT}.get(api, opcode)
+        try:
+            if api == "ping":
+                ws.ping(arg)
+            elif api == "pong":
+                ws.pong(arg)
+            elif api == "send_binary":
+                ws.send_binary(arg)
+            elif api == "send_text":
+                ws.send_text(arg)
+            elif api == "send_frame":
+                ws.send_frame(ABNF.create_frame(arg, opcode, 1))
+            else:
+                ws.send(arg, opcode)
+        except Exception as e:  # noqa: BLE001
+            obs.fail(exc_bucket("history|raised", e), f"call {i} ({api}, {len(raw)} bytes) raised {type(e).__name__}: {e}; {i} calls had succeeded")
+            break
+        want = rm.encode_frame(1, exp_op, raw, mask_key=key)
+        got = bytes(fs.sent[pos:])
+        pos = len(fs.sent)
+        if got != want:
+            fr, left = rm.decode_frames(got)
+            obs.fail("history|frame-differs", f"call {i} ({api}): wrote {len(got)} bytes decoding to {len(fr)} frames + {len(left)} leftover, expected one frame of {len(want)} bytes (opcode {exp_op})")
+            break
+        if api == "ping" and case.get("read_every") and (i + 1) % case["read_every"] == 0:
+            # the application takes what has arrived (only pongs here, so the call ends in a timeout)
+            try:
+                if reader == "recv":
+                    ws.recv()
+                elif reader == "recv_data":
+                    ws.recv_data()
+                else:
+                    ws.recv_data_frame(True)
+            except websocket.WebSocketTimeoutException:
+                pass
+            except Exception as e:  # noqa: BLE001
+                obs.fail(exc_bucket("history|reader-raised", e), f"{type(e).__name__}: {e}")
+                break
+            pos = len(fs.sent)
+    npings = sum(1 for s_ in steps if s_[0] == "ping")
+    obs.cls = ("history", f"calls:{min(len(steps) // 10 * 10, 60)}", f"pings:{min(npings // 5 * 5, 40)}", f"reader:{reader}")
+    obs.nt = ("history", repr(steps)[:2000], reader, case.get("read_every"), case.get("bytearray")) if len(steps) >= 9 else None
+    return obs
+
+
 def run_case(case):
+    if "steps" in case:
+        return run_history(case)
     import websocket
     from websocket import ABNF
 
@@ -291,7 +358,7 @@ def cases(draw):
         else:
             case["block"], case["plen"] = block or "x", draw(_sizes)
     else:
-        case["ptype"] = draw(st.sampled_from(["bytes", "bytes", "bytearray"])) if not strable else "bytes"
+        case["ptype"] = draw(st.sampled_from(["bytes", "bytes", "bytearray"]))
         if api in ("send_text",):
             case["ptype"] = "str"
         if control:
@@ -301,6 +368,32 @@ def cases(draw):
         else:
             case["block"], case["plen"] = draw(st.binary(min_size=1, max_size=23)), draw(_sizes)
     return case
+
+
+@st.composite
+def history_cases(draw):
+    n = draw(st.integers(5, 60))
+    steps = []
+    for _ in range(n):
+        api = draw(st.sampled_from(["ping", "ping", "ping", "pong", "send", "send_binary", "send_text", "send_frame"]))
+        if api in ("ping", "pong"):
+            p = draw(st.one_of(st.binary(max_size=20), st.sampled_from(["", "hb", "é"])))
+            steps.append([api, p, 9])
+        elif api == "send_text":
+            steps.append([api, draw(st.text(max_size=10)), 1])
+        else:
+            op = 2 if api == "send_binary" else draw(st.sampled_from([1, 2]))
+            steps.append([api, draw(st.binary(max_size=200)) if op == 2 else draw(st.text(max_size=20)), op])
+    return {"steps": steps, "reader": draw(st.sampled_from(["recv", "recv_data", "recv_data_frame"])), "read_every": draw(st.sampled_from([0, 1, 3])),
+            "bytearray": draw(st.booleans())}
+
+
+def fixed_histories():
+    for n in (9, 17, 40, 130):
+        for reader in ("recv", "recv_data", "recv_data_frame"):
+            for every in (0, 1):
+                yield {"steps": [["ping", b"k%d" % i, 9] for i in range(n)], "reader": reader, "read_every": every}
+                yield {"steps": [["ping", "", 9], ["send", "m", 1]] * (n // 2), "reader": reader, "read_every": every, "bytearray": True}
 
 
 def jobs(tier, seed):
@@ -317,6 +410,8 @@ def jobs(tier, seed):
         out.append({"name": f"enum-{i}", "kind": "enum", "lens": lens[i::nchunks], "complete": tier != "quick"})
     for i in range(hyp_shards):
         out.append({"name": f"hyp-{i}", "kind": "hyp", "seed": seed * 1000 + i, "n": hyp_n // hyp_shards})
+    for i in range(2 if tier == "quick" else 8):
+        out.append({"name": f"history-{i}", "kind": "history", "seed": seed * 1000 + 700 + i, "n": 150 if tier == "quick" else 4000})
     return out
 
 
@@ -327,5 +422,9 @@ def run_job(job, coll):
                 coll.check(case, run_case)
         coll.exhaustive["payload lengths 0..70000 (all three length encodings)"] = job["complete"]
         coll.notes["websockets_oracle_available"] = HAVE_WEBSOCKETS
+    elif job["kind"] == "history":
+        for c in fixed_histories():
+            coll.check(c, run_case)
+        hyp_run(coll, history_cases(), run_case, job["seed"], job["n"])
     else:
         hyp_run(coll, cases(), run_case, job["seed"], job["n"])
